@@ -85,3 +85,13 @@ Definition run_frame_in (c : list Z) : list Z :=
   let '(code, h, payload, rest) := frame_read_in c in
   if code =? 0 then [0; fh_size h; fh_type h; fh_res1 h; fh_id h] ++ put_bytes payload ++ [zlen rest]
   else [code].
+
+(* Frame.ReadIn followed by Frame.read(msg) (init / error / cancel messages):
+   kind stream -> framecode [err fields] *)
+Definition run_frame_dec (c : list Z) : list Z :=
+  match c with
+  | kind :: stream =>
+      let '(code, h, payload, rest) := frame_read_in stream in
+      if code =? 0 then 0 :: run_msg_dec (kind :: payload) else [code]
+  | _ => [-1]
+  end.
